@@ -1,1 +1,107 @@
-/-! Property theorems for C12 (only property-level statements and non-vacuity examples live here). -/
+import SpoxModel.Lemmas.Renames
+import SpoxModel.Lemmas.Front
+import SpoxModel.Generated.RenamesIR
+import SpoxModel.Generated.Writes
+/-!
+# C12 — build and inline are pure, repeatable and independent of process history
+
+Property theorems only.
+-/
+namespace C12
+open Renames Front
+
+/-- Obligation tying the theorems to the source: the IR extracted from `_public.py` on this run has
+    the accepted shape. -/
+theorem generated_good : goodShape Generated.RenamesIR.ir = true := by decide
+
+/-- **Full strength**: for any accepted IR, any keyword dictionary (also with one Var under several
+    keys, also with Vars that already had names), and any block body that itself leaves names
+    alone — whether it returns or raises — every Var's `_name` afterwards equals its value before. -/
+theorem renames_restored_shape {β} (ir : List Stmt) (h : goodShape ir = true)
+    (kw : List (String × Nat)) (body : Store → Store × Outcome × β)
+    (hbody : ∀ s, (body s).1 = s) (s : Store) :
+    (run ir kw body s).1 = s := by
+  rw [goodShape_eq h, run_fixed]
+  simp only
+  rw [hbody, restore_enter]
+
+/-- … for `_temporary_renames` as it is in /repo now. -/
+theorem renames_restored {β} (kw : List (String × Nat)) (body : Store → Store × Outcome × β)
+    (hbody : ∀ s, (body s).1 = s) (s : Store) :
+    (run Generated.RenamesIR.ir kw body s).1 = s :=
+  renames_restored_shape _ generated_good kw body hbody s
+
+/-- Inside the block every listed Var carries its key (no Var listed twice). -/
+theorem names_in_force {β} (kw : List (String × Nat)) (body : Store → Store × Outcome × β) (s : Store)
+    (h : (kw.map (·.2)).Nodup) :
+    run Generated.RenamesIR.ir kw body s =
+      run Generated.RenamesIR.ir kw (fun _ => body (enter kw s)) s ∧
+    ∀ k v, (k, v) ∈ kw → enter kw s v = some k := by
+  constructor
+  · rw [goodShape_eq generated_good, run_fixed, run_fixed]
+  · intro k v hm
+    exact enter_listed kw s h k v hm
+
+/-- The pinned shape (`pre[arg] = arg._name`) leaks when one Var occurs under two keys. -/
+theorem renames_pinned_counterexample :
+    (run (β := Unit) pinnedIR [("a", 0), ("b", 0)] (fun s => (s, .exn, ())) (fun _ => none)).1 0 = some "a" := by
+  decide
+
+/-- Without `finally` a raising body leaves the temporary name behind. -/
+theorem renames_nofinally_counterexample :
+    (run (β := Unit) noFinallyIR [("a", 0)] (fun s => (s, .exn, ())) (fun _ => none)).1 0 = some "a" := by
+  decide
+
+/-- `build` leaves every Var's name as it found it, whatever the outcome (model, KeyError,
+    TypeError, BuildError, ScopeError …): a failed build leaves no trace in `_name`. -/
+theorem build_restores_names (P : List Obj) (π : List Nat → List Nat) (fixed : Bool) (req : Request)
+    (s : Store) : (build Generated.RenamesIR.ir P π fixed req s).1 = s := by
+  rw [goodShape_eq generated_good]
+  exact build_fst P π fixed req s
+
+/-- `build` does not depend on the iteration order of Python sets (object addresses, hash seed):
+    any two permutation functions give the same result — model, or error class. -/
+theorem build_deterministic (P : List Obj) (π π' : List Nat → List Nat)
+    (hπ : ∀ l, (π l).Perm l) (hπ' : ∀ l, (π' l).Perm l) (req : Request) (s : Store)
+    (hkeys : (req.inputs.map (·.name)).Nodup)
+    (hunnamed : ∀ v, v ∉ req.inputs.map (·.obj) → s v = none) :
+    build Generated.RenamesIR.ir P π true req s = build Generated.RenamesIR.ir P π' true req s := by
+  rw [goodShape_eq generated_good, build_fixed, build_fixed,
+    body_perm_invariant P π π' hπ hπ' req s hkeys hunnamed]
+
+def exP : List Obj :=
+  [⟨true, false, "1:[]", [1, 0], []⟩, ⟨true, true, "1:[]", [], []⟩, ⟨true, true, "7:[]", [], []⟩]
+def exReq : Request := ⟨[⟨"a", 0⟩, ⟨"b", 1⟩], [⟨"y", 2⟩], true⟩
+def inputsOf (r : Except Err Model) : Option (List VInfo) :=
+  match r with | .ok m => some m.inputs | .error _ => none
+
+/-- Before the fix (`fixed = false`) the result did depend on the set order. -/
+theorem build_deterministic_counterexample :
+    inputsOf (build Generated.RenamesIR.ir exP id false exReq (fun _ => none)).2 ≠
+      inputsOf (build Generated.RenamesIR.ir exP List.reverse false exReq (fun _ => none)).2 := by
+  decide
+
+/-! ## Purity: the statements of spox that write to lasting state (table extracted from /repo) -/
+
+/-- Every statement of `src/spox/_*.py` that writes to an attribute, an item of an attribute or of
+    a module-level container, rebinds a global, or calls `_rename`, is of an allowed kind
+    (`Purity.classify`): constructor initialisation, state of a per-build object, memoisation of a
+    pure result, a field of a Var/protobuf created by the same call, a scoped setting, or one of the
+    swap-and-restore pairs. In particular no statement assigns a Var's type/_value/_name/_op
+    outside those. -/
+theorem writes_allowed : Generated.Writes.sites.all Purity.allowed = true := by decide
+
+/-- The only non-constructor writes to `Var.type/_value/_name/_op` are the swap in
+    `_temporary_renames`, the setter `Var._rename`, and initialisations of Vars made by the same call. -/
+theorem var_writes_ok : Purity.varWritesOk Generated.Writes.sites = true := by decide
+
+/-- The three swap-and-restore sites (`_temporary_renames`, `_Inline.model` in `adapt_inline`,
+    `StandardNode.attrs` in `to_singleton_onnx_model`) restore inside a `finally`, and write
+    nowhere outside the `try`. -/
+theorem swaps_restored : Purity.swapsRestored Generated.Writes.sites = true := by decide
+
+/-- `inline` copies the model it is given before the first statement that mutates it, and only the
+    copy is reachable from the returned callback. -/
+theorem inline_copies_first : Purity.copyBeforeMutate Generated.Writes.inlineEvents = true := by decide
+
+end C12
